@@ -261,11 +261,36 @@ def r3_regex(ctx):
                 # guarded by `<re> is not None and`
                 par = getattr(c, '_parent', None)
                 guard = False
+                rname = c.func.value.id
+
+                def _none_test(e, op):
+                    return isinstance(e, ast.Compare) and len(e.ops) == 1 and isinstance(e.left, ast.Name) and e.left.id == rname and isinstance(e.ops[0], op) and isinstance(e.comparators[0], ast.Constant) and e.comparators[0].value is None
+
+                prev = c
                 for a in _anc(c):
-                    if isinstance(a, ast.BoolOp) and isinstance(a.op, ast.And):
-                        first = a.values[0]
-                        if isinstance(first, ast.Compare) and isinstance(first.left, ast.Name) and first.left.id == c.func.value.id and isinstance(first.ops[0], ast.IsNot):
+                    if isinstance(a, ast.BoolOp):
+                        idx = next((i for i, v in enumerate(a.values) if v is prev), None)
+                        earlier = a.values[:idx] if idx is not None else []
+                        # `re is not None and re.search(..)`  /  `re is None or re.search(..)`
+                        if isinstance(a.op, ast.And) and any(_none_test(v, ast.IsNot) for v in earlier):
                             guard = True
+                        if isinstance(a.op, ast.Or) and any(_none_test(v, ast.Is) for v in earlier):
+                            guard = True
+                    prev = a
+                if not guard:
+                    # an enclosing / preceding `if re is None` / `if re is not None` decides it on the CFG
+                    from ..cfg import cfg_of as _cfg_of
+
+                    fcfg = _cfg_of(f.node)
+                    nn = []
+                    for i in walk_local(f.node):
+                        if isinstance(i, ast.If) and _none_test(i.test, ast.Is):
+                            nn += fcfg.nodes_of(i, 'false')
+                        elif isinstance(i, ast.If) and _none_test(i.test, ast.IsNot):
+                            nn += fcfg.nodes_of(i, 'true')
+                    st = enclosing_stmt(c)
+                    nodes = fcfg.nodes_of(st, ('stmt', 'test'))
+                    guard = bool(nn) and bool(nodes) and all(fcfg.set_dominates(nn, x) for x in nodes)
                 ctx.check(
                     okm and guard,
                     'C15.R3',
